@@ -583,19 +583,15 @@ impl<'a> Serializer<'a> {
 
         let num = float.abs();
 
-        if self.options.is_compressed() && num < 1.0 {
-            buffer.push_str(
-                format!("{:.10}", num)[1..]
-                    .trim_end_matches('0')
-                    .trim_end_matches('.'),
-            );
-        } else {
-            buffer.push_str(
-                format!("{:.10}", num)
-                    .trim_end_matches('0')
-                    .trim_end_matches('.'),
-            );
+        let formatted = format!("{:.10}", num);
+        let mut digits = formatted.trim_end_matches('0').trim_end_matches('.');
+
+        // n.b. decide on the *rounded* text: 0.99999999999 prints as `1`, not `.0000000000`
+        if self.options.is_compressed() && digits.starts_with("0.") {
+            digits = &digits[1..];
         }
+
+        buffer.push_str(digits);
 
         if buffer.is_empty() || buffer == "-" || buffer == "-0" {
             buffer = "0".to_owned();
